@@ -73,9 +73,9 @@ def install_symtables():
     if not isinstance(s.origins, SymTable):
         _installed["origins"] = s.origins
         s.origins = SymTable(s.origins)
+    from symx import shims
     for modname in ("a5.core.serialization", "a5.core.compact", "a5.core.cell_info"):
-        m = importlib.import_module(modname)
-        m.int = sf.to_int
+        shims.install_int_shims(importlib.import_module(modname))
     c = sx._CTX
     if c is not None and getattr(c, "float_mode", None) is None:
         sf.install_float_mode(c, "fp")
@@ -146,8 +146,8 @@ def same_cell(a, b):
 def int_shims(c):
     """int() shim + bit-precise float mode without the symbolic origins view (C05 forks over faces)."""
     from symx import floats as sf
+    from symx import shims
     for modname in ("a5.core.serialization", "a5.core.compact", "a5.core.cell_info"):
-        m = importlib.import_module(modname)
-        m.int = sf.to_int
+        shims.install_int_shims(importlib.import_module(modname))
     if getattr(c, "float_mode", None) is None:
         sf.install_float_mode(c, "fp")
